@@ -175,6 +175,16 @@ func Ref(t *rapid.T, id Ident, label string) string {
 	return string(b)
 }
 
+// KeyRef is Ref for the column lists of PRIMARY KEY (...), UNIQUE (...) and
+// CREATE INDEX: there SQLite also takes a string literal for the name of a
+// column ('a' is the column a, not a constant).
+func KeyRef(t *rapid.T, id Ident, label string) string {
+	if rapid.IntRange(0, 9).Draw(t, label+"lit") == 0 {
+		return "'" + strings.ReplaceAll(id.Name, "'", "''") + "'"
+	}
+	return Ref(t, id, label)
+}
+
 // GenExpr draws an expression over the given columns. simple=true keeps to
 // the forms sqlittle's grammar knows.
 func GenExpr(t *rapid.T, cols []Ident, simple bool) string {
@@ -236,7 +246,7 @@ func GenIndexedCols(t *rapid.T, cols []Ident, max int, label string) string {
 	}
 	var parts []string
 	for i, c := range perm {
-		s := Ref(t, c, label)
+		s := KeyRef(t, c, label)
 		if rapid.IntRange(0, 4).Draw(t, label+"c") == 0 || (repeated && i == len(perm)-1 && rapid.Bool().Draw(t, label+"repc")) {
 			s += " COLLATE " + rapid.SampledFrom(collations).Draw(t, label+"cn")
 		}
@@ -419,7 +429,7 @@ func GenIndex(t *rapid.T, name Ident, tb Table, unique, exprs, partial bool) Ind
 	n := rapid.IntRange(1, min(3, len(ids))).Draw(t, "nic")
 	perm := rapid.Permutation(ids).Draw(t, "icp")
 	for i := 0; i < n; i++ {
-		var s string
+		var s, asExpr string
 		if exprs && rapid.IntRange(0, 4).Draw(t, "iexpr") == 0 {
 			s = GenExpr(t, ids, rapid.IntRange(0, 3).Draw(t, "iexprsimple") > 0)
 			ix.Plain = append(ix.Plain, false)
@@ -428,10 +438,16 @@ func GenIndex(t *rapid.T, name Ident, tb Table, unique, exprs, partial bool) Ind
 			if i > 0 && rapid.IntRange(0, 7).Draw(t, "icrep") == 0 {
 				c = perm[rapid.IntRange(0, i-1).Draw(t, "icrepi")] // a column listed twice
 			}
-			s = Ref(t, c, "ic")
+			s = KeyRef(t, c, "ic")
 			ix.Plain = append(ix.Plain, true)
+			if strings.HasPrefix(s, "'") {
+				asExpr = c.SQL // (in an expression the literal would be a constant)
+			}
 		}
-		ix.Exprs = append(ix.Exprs, s)
+		if asExpr == "" {
+			asExpr = s
+		}
+		ix.Exprs = append(ix.Exprs, asExpr)
 		if rapid.IntRange(0, 3).Draw(t, "icoll") == 0 {
 			s += " COLLATE " + rapid.SampledFrom(collations).Draw(t, "icolln")
 		} else if rapid.IntRange(0, 5).Draw(t, "icollwr") == 0 || (tb.WithoutRowid && rapid.IntRange(0, 2).Draw(t, "icollwr2") == 0) {
